@@ -804,7 +804,19 @@ class FakeSock:
         self.closed = True
 
     # --- UDP
+    def _one_read(self):
+        # select() announced ONE datagram on one socket: a second read in the same iteration, or a read of a socket that was not announced,
+        # would block the daemon for good
+        lp = self.loop
+        if self.kind == 'conn':
+            return          # the accepted status connection (its blocking behaviour is outside the model)
+        announced = {'udp': 'udp', 'xfrm': 'xfrm'}.get(self.kind)
+        if lp.current is None or lp.current.get('kind') != announced or lp.read_done:
+            raise LoopWedged(f'blocking read: the daemon reads the {self.kind} socket although select() announced no (further) datagram on it')
+        lp.read_done = True
+
     def recvfrom(self, n):
+        self._one_read()
         ev = self.loop.current
         return ev['data'], (ev['src'], ev.get('sport', 500))
 
@@ -817,6 +829,7 @@ class FakeSock:
 
     # --- netlink
     def recv(self, n):
+        self._one_read()
         return self.loop.current.get('data', b'')
 
     # --- control
@@ -845,6 +858,8 @@ class Loop:
         self.tick_s = tick_s
         self.iterations = 0
         self.bad_select = 0
+        self.current = None
+        self.read_done = False
         self.on_iteration = None
 
     def run(self, events):
@@ -891,6 +906,7 @@ class Loop:
                 if ev is None:
                     ev = {'kind': 'tick'}
             loop.current = ev
+            loop.read_done = False
             k = ev['kind']
             if k == 'udp':
                 return [loop.udp[str(ev['dst'])]], [], []
